@@ -54,6 +54,9 @@ def generate(seed, stratum, tier):
   p = rng.choice([0.1, 0.25, 1.0])
   c0 = [['start', 0]]
   names = ['TA', 'TB', 'TC']
+  if rng.random() < 0.4:
+    # names that contain one another (HEARTBEAT / HEARTBEAT_LOST): still different names
+    names = rng.choice([['TA', 'TA_LOST', 'TB'], ['TICK', 'TICK2', 'TOCK'], ['TB_X', 'TB', 'XTB']])
   srcs = []
   for slot in range(nsrc):
     sig = rng.choice(names[:rng.randrange(1, 4)])
